@@ -242,14 +242,6 @@ where
   cached (sp : Array Nat) (b : Block) : Bool :=
     (List.range b.s.size).all fun j => b.s[j]?.getD 0 != 1 || b.v[j]?.getD 0 == sp[j]?.getD 1
 
-/-- `k` is in the dependency cone of `j` (reflexive-transitive), fuel `j+1` suffices under WF -/
-def inCone (g : Graph Nat) : Nat → Nat → Nat → Bool
-  | 0, j, k => j == k
-  | f+1, j, k => j == k ||
-    match g j with
-    | .struct s => s.deps.any fun d => inCone g f d k
-    | .param _ _ => false
-
 def isStruct (arr : Array (Node Nat)) (j : Nat) : Bool :=
   match arr[j]? with
   | some (.struct _) => true
@@ -277,7 +269,7 @@ def holdsNoSpurious (c : Case) (bs : List Block) : Bool :=
           match step? (ofArr gw) op with
           | some (g1, _) =>
             let gw1 := toArr N g1
-            let add := (List.range N).filter fun j => isStruct gw1 j && inCone (ofArr gw1) (j+1) j p
+            let add := (List.range N).filter fun j => isStruct gw1 j && inCone (j+1) (ofArr gw1) j p
             quiet && go gw1 (dirty ++ add.filter (!dirty.contains ·)) ops bs
           | none => false
         else quiet && go gw dirty ops bs
@@ -292,7 +284,7 @@ def holdsNoSpurious (c : Case) (bs : List Block) : Bool :=
           match step? (ofArr gw) op with
           | some (g1, _) =>
             let gw1 := toArr N g1
-            let add := (List.range N).filter fun j => isStruct gw1 j && inCone (ofArr gw1) (j+1) j k
+            let add := (List.range N).filter fun j => isStruct gw1 j && inCone (j+1) (ofArr gw1) j k
             quiet && go gw1 (dirty ++ add.filter (!dirty.contains ·)) ops bs
           | none => false
         else quiet && go gw dirty ops bs
